@@ -440,6 +440,15 @@ func (ctx *RenderContext) CallMacro(w io.Writer, name string, args []interface{}
 
 // CallFunction calls a function with the given arguments
 func (ctx *RenderContext) CallFunction(name string, args []interface{}) (interface{}, error) {
+	// Every function call passes through here: a sandboxed context may only
+	// call what the policy allows (macros are templates, not functions)
+	if ctx.sandboxed && ctx.env != nil && ctx.env.securityPolicy != nil &&
+		!ctx.env.securityPolicy.IsFunctionAllowed(name) {
+		if _, isMacro := ctx.GetMacro(name); !isMacro {
+			return nil, NewFunctionViolation(name)
+		}
+	}
+
 	// Check if it's a function in the environment
 	if ctx.env != nil {
 		if fn, ok := ctx.env.functions[name]; ok {
